@@ -1,6 +1,7 @@
 package specgen
 
 import (
+	"encoding/json"
 	"fmt"
 	"sort"
 	"strings"
@@ -1253,4 +1254,75 @@ func AddCaseTwins(t *rapid.T, d *Doc) int {
 		n++
 	}
 	return n
+}
+
+// DecorateForeign adds vendor extensions of other tools (x-nullable, x-omitempty,
+// x-go-name, x-order, x-example, x-internal, x-codegen-request-body-name, x-logo, ...)
+// to schemas, parameters, operations and the document root of a rendered spec. goag
+// knows none of them: the decorated document must behave exactly like the plain one.
+func DecorateForeign(t *rapid.T, raw []byte) ([]byte, int) {
+	var root any
+	if json.Unmarshal(raw, &root) != nil {
+		return raw, 0
+	}
+	n := 0
+	schemaExt := []struct {
+		k string
+		v any
+	}{{"x-nullable", false}, {"x-omitempty", true}, {"x-go-name", "Renamed"}, {"x-order", 3.0}, {"x-example", map[string]any{"a": 1.0}}, {"x-isnullable", false}, {"x-go-type", "string"}, {"x-deprecated-reason", ""}}
+	var walk func(node any, key string)
+	walk = func(node any, key string) {
+		switch x := node.(type) {
+		case map[string]any:
+			_, isRef := x["$ref"]
+			if _, typed := x["type"].(string); typed && !isRef && key != "securitySchemes" && rapid.IntRange(0, 3).Draw(t, "foreign_schema_ext") == 0 {
+				if _, isParam := x["in"]; !isParam {
+					e := schemaExt[rapid.IntRange(0, len(schemaExt)-1).Draw(t, "foreign_schema_ext_which")]
+					x[e.k] = e.v
+					n++
+				}
+			}
+			if _, isParam := x["in"].(string); isParam && !isRef && rapid.IntRange(0, 3).Draw(t, "foreign_param_ext") == 0 {
+				x["x-example"] = "1"
+				n++
+			}
+			keys := make([]string, 0, len(x))
+			for k := range x {
+				keys = append(keys, k)
+			}
+			sort.Strings(keys)
+			for _, k := range keys {
+				switch k {
+				case "get", "put", "post", "delete", "options", "head", "patch", "trace":
+					if op, ok := x[k].(map[string]any); ok && key != "properties" && rapid.IntRange(0, 3).Draw(t, "foreign_op_ext") == 0 {
+						op["x-internal"] = false
+						op["x-codegen-request-body-name"] = "payload"
+						n++
+					}
+				}
+				// (the values of a securitySchemes / examples map are not schemas)
+				if k == "securitySchemes" || k == "examples" || k == "example" || k == "default" || k == "enum" || k == "mapping" || k == "variables" || k == "security" {
+					continue
+				}
+				walk(x[k], k)
+			}
+		case []any:
+			for _, it := range x {
+				walk(it, key)
+			}
+		}
+	}
+	walk(root, "")
+	if m, ok := root.(map[string]any); ok && rapid.Bool().Draw(t, "foreign_root_ext") {
+		m["x-tagGroups"] = []any{map[string]any{"name": "g", "tags": []any{"a"}}}
+		if info, ok := m["info"].(map[string]any); ok {
+			info["x-logo"] = map[string]any{"url": "https://h.example/logo.png"}
+		}
+		n++
+	}
+	out, err := json.MarshalIndent(root, "", "  ")
+	if err != nil {
+		return raw, 0
+	}
+	return out, n
 }
